@@ -6,6 +6,14 @@ Extracts, *by function name* from the current source text of the repository unde
   lsearchk_t::stpmin / stpmax                                                                     (src/lsearchk.cpp)
 and emits lean/NanoVerif/Gen/LsPredicates.lean, generic over the scalar. Each function body must be (asserts and
 comments removed) a single `return <scalar expression>;`. Anything else raises vlib.Broken("translate", …).
+
+Second output, lean/NanoVerif/Gen/LsStep.lean: the interpolation formulas of `lsearch_step_t`
+  lsearch_step_t::cubic / quadratic / secant / bisection / interpolate                             (src/solver/lstep.cpp)
+  enum class interpolation_type                                                                    (include/nano/solver/lstep.h)
+Bodies here are statement lists: `const auto x = e;` (a `let`), the out-parameter block `if (p != nullptr) { *p = e; }` of `quadratic`
+(emitted as the separate definition `quadraticConvexity`), the conditional operator `c ? a : b`, `std::sqrt` / `std::isfinite` (parameters
+`sqrt`, `fin` of the generated definitions), calls of the sibling formulas, a final `return e;` — and, for `interpolate`, a `switch` over
+the enumeration whose cases are `if (std::isfinite(x)) { return x; }` followed by `[[fallthrough]];`, ending in `default: return x;`.
 """
 import os, re
 from fractions import Fraction
@@ -15,7 +23,7 @@ OUT = os.path.join(vlib.LEAN, "NanoVerif", "Gen", "LsPredicates.lean")
 
 TOK = re.compile(r"\s*(?:(\d+\.\d*(?:[eE][-+]?\d+)?|\.\d+(?:[eE][-+]?\d+)?|\d+(?:[eE][-+]?\d+)?)"
                  r"|([A-Za-z_][A-Za-z_0-9]*(?:::[A-Za-z_][A-Za-z_0-9]*)*(?:\.[A-Za-z_][A-Za-z_0-9]*)*)"
-                 r"|(<=|>=|==|!=|&&|\|\||[-+*/()<>,!]))")
+                 r"|(<=|>=|==|!=|&&|\|\||[-+*/()<>,!?:]))")
 
 
 class TranslateError(Exception):
@@ -71,6 +79,15 @@ def lean_number(text):
     return f"(({q.numerator} : α) / ({q.denominator} : α))"
 
 
+def balanced(t):
+    d = 0
+    for c in t:
+        d += (c == "(") - (c == ")")
+        if d < 0:
+            return False
+    return d == 0
+
+
 class Parser:
     """recursive descent for C++ scalar expressions: || && comparison + - * / unary- calls; `bind` maps C++ symbols and
     call expressions (tokens glued without blanks, e.g. 'origin.dg(descent)') to Lean variables"""
@@ -91,6 +108,16 @@ class Parser:
         return k
 
     def expr(self):
+        a = self.orx()
+        if self.peek()[1] == "?":
+            # the conditional operator; a pure comparison is used as a proposition (`if a > b then … else …`)
+            self.eat(); x = self.expr(); self.eat(":"); y = self.expr()
+            m = re.fullmatch(r"decide \((.*)\)", a)
+            cond = m.group(1) if m and balanced(m.group(1)) else a
+            return f"(if {cond} then {x} else {y})"
+        return a
+
+    def orx(self):
         a = self.andx()
         while self.peek()[1] == "||":
             self.eat(); a = f"({a} || {self.andx()})"
@@ -150,6 +177,8 @@ class Parser:
                 e = self.expr(); self.eat(")"); return f"(absv {e})"
             if name in ("scalar_t", "static_cast<scalar_t>"):
                 e = self.expr(); self.eat(")"); return e
+            if name in ("std::sqrt", "sqrt") and "std::sqrt" in self.bind:
+                e = self.expr(); self.eat(")"); return f"({self.bind['std::sqrt']} {e})"
             raw = []; depth = 1
             while True:
                 k2 = self.eat()
@@ -252,10 +281,248 @@ def generate(repo):
     return "\n".join(out)
 
 
+# ---------------------------------------------------------------------------------------------------------------------
+# Gen/LsStep.lean: the interpolation formulas of lsearch_step_t
+
+OUT_STEP = os.path.join(vlib.LEAN, "NanoVerif", "Gen", "LsStep.lean")
+STEP_CPP = "src/solver/lstep.cpp"
+STEP_H = "include/nano/solver/lstep.h"
+ARGS = "ut uf ug vt vf vg"
+STEP_BIND = {"u.t": "ut", "u.f": "uf", "u.g": "ug", "v.t": "vt", "v.f": "vf", "v.g": "vg", "std::sqrt": "sqrt"}
+
+HEADER_STEP = """-- GENERATED by tools/props/c07.py from src/solver/lstep.cpp, include/nano/solver/lstep.h — do not edit
+/-!
+  The interpolation formulas of `lsearch_step_t` (libnano), re-translated from the C++ source text on every check (DESIGN.md §2.3.a).
+  Core Lean only; self-contained (no import). Scalar-generic: run at `Float` by `driver_c07`, proved over ordered fields
+  (Props/C07.lean: `cubic_is_stationary_point_of_hermite_cubic`, `quadratic_is_parabola_minimiser`, `secant_is_root_of_linear_slope`,
+  `interpolation_exact_on_quadratics`; `model_lstep_is_generated` ties the formulas used inside Model/LSearch.lean to these).
+
+  The two `lsearch_step_t` arguments `u`, `v` are passed field-wise: `ut uf ug` = `u.t u.f u.g` (step, value, slope), same for `v`.
+  `std::sqrt` and `std::isfinite` are the parameters `sqrt`, `fin`. Numeric literals as in Gen/LsPredicates.lean (`3.0` ↦ `(3 : α)`,
+  `0.5` ↦ `((1 : α) / (2 : α))`); `c ? a : b` ↦ `if c then a else b`; `const auto x = e;` ↦ `let x := e`.
+-/
+set_option linter.unusedVariables false
+namespace NanoVerif.Gen.LsStep
+"""
+
+
+def split_statements(body):
+    """top-level `;`-separated statements of a function body without nested blocks"""
+    out, cur, depth = [], "", 0
+    for c in body:
+        if c in "({[":
+            depth += 1
+        if c in ")}]":
+            depth -= 1
+        if c == ";" and depth == 0:
+            if cur.strip():
+                out.append(" ".join(cur.split()))
+            cur = ""
+        else:
+            cur += c
+    if cur.strip():
+        raise TranslateError("text after the last statement: " + " ".join(cur.split())[:80])
+    return out
+
+
+def expr_to_lean(text, bind, what):
+    p = Parser(tokenize(text), bind)
+    e = p.expr()
+    if p.peek()[0] != "eof":
+        raise TranslateError(f"{what}: trailing tokens after the expression `{text}`")
+    return e
+
+
+def translate_formula(src, fname, with_sqrt):
+    """a scalar formula `lsearch_step_t::<fname>(u, v[, bool* p])`: lets + return; returns (lean definitions, quoted source lines)"""
+    cname = "lsearch_step_t::" + fname
+    body = strip_comments(body_of(src, cname, STEP_CPP))
+    quoted = []
+    extra = None
+    # the out-parameter block of `quadratic`
+    m = re.search(r"if\s*\(\s*(\w+)\s*!=\s*nullptr\s*\)\s*\{\s*\*\s*(\w+)\s*=\s*([^;{}]*);\s*\}", body)
+    if m:
+        if m.group(1) != m.group(2):
+            raise TranslateError(f"{cname}: unexpected out-parameter block")
+        extra = (m.group(1), " ".join(m.group(3).split()), m.start())
+        body = body[:m.start()] + body[m.end():]
+    if "{" in body or "}" in body:
+        raise TranslateError(f"{cname}: nested block not translated: {' '.join(body.split())[:120]}")
+    bind = dict(STEP_BIND)
+    if not with_sqrt:
+        del bind["std::sqrt"]
+    lets = []
+    ret = None
+    for st in split_statements(body):
+        quoted.append(st + ";")
+        m2 = re.fullmatch(r"const\s+(?:auto|scalar_t)\s+(\w+)\s*=\s*(.*)", st)
+        if m2:
+            if ret is not None:
+                raise TranslateError(f"{cname}: statement after return")
+            e = expr_to_lean(m2.group(2), bind, cname)
+            lets.append((m2.group(1), e))
+            bind[m2.group(1)] = m2.group(1)
+            continue
+        m2 = re.fullmatch(r"return\s+(.*)", st)
+        if m2 and ret is None:
+            ret = expr_to_lean(m2.group(1), bind, cname)
+            continue
+        raise TranslateError(f"{cname}: statement not translated: {st[:100]}")
+    if ret is None:
+        raise TranslateError(f"{cname}: no return statement")
+    if ret.startswith("decide") or "&&" in ret or "||" in ret:
+        raise TranslateError(f"{cname}: expected a scalar, got {ret}")
+    params = ("(sqrt : α → α) " if with_sqrt else "") + f"({ARGS} : α)"
+    defs = []
+    if extra is not None:
+        pname, etext, _ = extra
+        # the lets the flag may use are those defined before the block: all of them are, in the current source; checked by elaboration
+        e = expr_to_lean(etext, bind, cname)
+        if not e.startswith("decide"):
+            raise TranslateError(f"{cname}: the out-parameter `*{pname}` is not a comparison: {etext}")
+        letsx = "".join(f"  let {n} := {v}\n" for n, v in lets if re.search(r"\b" + n + r"\b", e))
+        defs.append(f"/-- what `{cname}` stores into its out-parameter `*{pname}` (when given): `*{pname} = {etext};` -/\n"
+                    f"def {fname}{pname[0].upper() + pname[1:]} ({ARGS} : α) : Bool :=\n{letsx}  {e}\n")
+    lines = "".join(f"  let {n} := {v}\n" for n, v in lets)
+    src_q = " ".join(quoted)
+    defs.append(f"/-- `{cname}` ({STEP_CPP}): `{src_q}` -/\ndef {fname} {params} : α :=\n{lines}  {ret}\n")
+    return defs
+
+
+def translate_enum(hsrc):
+    m = re.search(r"enum\s+class\s+interpolation_type\s*(?::\s*\w+\s*)?\{([^}]*)\}", strip_comments(hsrc))
+    if not m:
+        raise TranslateError(f"enum class interpolation_type not found in {STEP_H}")
+    names = [n.strip() for n in m.group(1).split(",") if n.strip()]
+    for n in names:
+        if not re.fullmatch(r"[a-z_][a-z_0-9]*", n):
+            raise TranslateError(f"interpolation_type: enumerator `{n}` not translated (explicit values are not)")
+    return names
+
+
+def translate_interpolate(src, enum):
+    cname = "lsearch_step_t::interpolate"
+    body = strip_comments(body_of(src, cname, STEP_CPP))
+    m = re.search(r"switch\s*\(\s*method\s*\)\s*\{", body)
+    if not m:
+        raise TranslateError(f"{cname}: `switch (method)` not found")
+    head, rest = body[:m.start()], body[m.end():]
+    depth, i = 1, 0
+    while depth:
+        if i >= len(rest):
+            raise TranslateError(f"{cname}: unbalanced switch")
+        depth += (rest[i] == "{") - (rest[i] == "}")
+        i += 1
+    sw, tail = rest[:i - 1], rest[i:]
+    if tail.strip():
+        raise TranslateError(f"{cname}: statements after the switch are not translated")
+    calls = {f"{f}(u,v)": (f"{f} sqrt {ARGS}" if f == "cubic" else f"{f} {ARGS}") for f in ("cubic", "quadratic", "secant", "bisection")}
+    bind = dict(calls)
+    lets = []
+    for st in split_statements(head):
+        m2 = re.fullmatch(r"const\s+(?:auto|scalar_t)\s+(\w+)\s*=\s*(.*)", st)
+        if not m2:
+            raise TranslateError(f"{cname}: statement not translated: {st[:100]}")
+        lets.append((m2.group(1), "(" + expr_to_lean(m2.group(2), bind, cname) + ")"))
+        bind[m2.group(1)] = m2.group(1)
+    # the labelled blocks, in source order
+    parts = re.split(r"(case\s+interpolation_type::\w+\s*:|default\s*:)", sw)
+    if parts[0].strip():
+        raise TranslateError(f"{cname}: text before the first case label")
+    blocks = []   # (label or None for default, [(guard var or None, returned var)], falls through)
+    for k in range(1, len(parts), 2):
+        lab = parts[k]
+        ml = re.match(r"case\s+interpolation_type::(\w+)", lab)
+        label = ml.group(1) if ml else None
+        if label is not None and label not in enum:
+            raise TranslateError(f"{cname}: unknown enumerator {label}")
+        text = " ".join(parts[k + 1].split())
+        steps, falls = [], False
+        while text:
+            mi = re.match(r"if \( ?std::isfinite\( ?(\w+) ?\) ?\) ?\{ ?return (\w+) ?; ?\} ?", text)
+            mr = re.match(r"return (\w+) ?; ?", text)
+            mf = re.match(r"\[\[fallthrough\]\] ?; ?", text)
+            if mi:
+                steps.append((mi.group(1), mi.group(2))); text = text[mi.end():]
+            elif mr:
+                steps.append((None, mr.group(1))); text = text[mr.end():]
+                if text:
+                    raise TranslateError(f"{cname}: statements after an unconditional return")
+            elif mf:
+                falls = True; text = text[mf.end():]
+                if text:
+                    raise TranslateError(f"{cname}: statements after [[fallthrough]]")
+            else:
+                raise TranslateError(f"{cname}: case body not translated: {text[:80]}")
+        for g, r in steps:
+            for v in (g, r):
+                if v is not None and v not in bind:
+                    raise TranslateError(f"{cname}: unbound symbol {v}")
+        blocks.append((label, steps, falls))
+    if not blocks or blocks[-1][0] is not None:
+        raise TranslateError(f"{cname}: the last label must be `default`")
+
+    def chain(k):
+        """the code executed when control enters block k"""
+        out = []
+        while True:
+            label, steps, falls = blocks[k]
+            for g, r in steps:
+                out.append((g, r))
+                if g is None:
+                    return out
+            if not falls and k + 1 < len(blocks):
+                raise TranslateError(f"{cname}: a case without return or [[fallthrough]] (a `break`?) is not translated")
+            k += 1
+            if k >= len(blocks):
+                raise TranslateError(f"{cname}: control reaches the end of the switch")
+
+    def render(ch):
+        s = ""
+        for g, r in ch:
+            s += (f"if fin {g} then {r} else " if g is not None else r)
+        return s
+
+    arms = []
+    labels = [b[0] for b in blocks]
+    for e in enum:
+        k = labels.index(e) if e in labels else len(blocks) - 1
+        arms.append(f"  | .{e} => {render(chain(k))}\n")
+    lines = "".join(f"  let {n} := {v}\n" for n, v in lets)
+    quoted = " ".join(strip_comments(body_of(src, cname, STEP_CPP)).split())
+    return (f"/-- `{cname}` ({STEP_CPP}): `{quoted}` -/\n"
+            f"def interpolate (fin : α → Bool) (sqrt : α → α) ({ARGS} : α) (method : InterpolationType) : α :=\n{lines}"
+            f"  match method with\n" + "".join(arms))
+
+
+def generate_step(repo):
+    try:
+        src = open(os.path.join(repo, STEP_CPP)).read()
+        hsrc = open(os.path.join(repo, STEP_H)).read()
+    except OSError as ex:
+        raise TranslateError(f"cannot read the lstep sources: {ex}")
+    enum = translate_enum(hsrc)
+    out = [HEADER_STEP]
+    out.append(f"/-- `enum class interpolation_type` ({STEP_H}) -/\ninductive InterpolationType where\n" +
+               "".join(f"  | {n}\n" for n in enum) + "deriving DecidableEq, Repr\n")
+    out.append("section\nvariable {α : Type} [Add α] [Sub α] [Mul α] [Div α] [Neg α] [LT α] [LE α] [DecidableLT α] [DecidableLE α] "
+               "[∀ n, OfNat α n]\n")
+    for fname, with_sqrt in (("cubic", True), ("quadratic", False), ("secant", False), ("bisection", False)):
+        out += translate_formula(src, fname, with_sqrt)
+    out.append(translate_interpolate(src, enum))
+    out.append("end\nend NanoVerif.Gen.LsStep\n")
+    return "\n".join(out)
+
+
 def translate():
     try:
         text = generate(vlib.REPO)
     except TranslateError as ex:
         raise vlib.Broken("translate", f"Gen/LsPredicates.lean: {ex}")
     vlib.write_if_changed(OUT, text)
+    try:
+        step = generate_step(vlib.REPO)
+    except TranslateError as ex:
+        raise vlib.Broken("translate", f"Gen/LsStep.lean: {ex}")
+    vlib.write_if_changed(OUT_STEP, step)
     return text
